@@ -51,6 +51,22 @@ def safeK (S : Schema) (cur sin : Option Op) (T : List DNode) : List DNode → B
   | c :: cs => T.all (fun t => !matchP S c t || safeP S cur sin t c) && safeK S cur sin T cs
 end
 
+mutual
+/-- `safeP` without the two conditions on the key copies (they hold for computed diffs: Diff/LemmasKeyCopy.lean) -/
+def safeP0 (S : Schema) (cur sin : Option Op) (t : DNode) : DNode → Bool
+  | .term s f m v =>
+    t.isTerm && !(effOp t cur == some .none && effOp (.term s f m v) sin == some .replace && f.dflt)
+  | .inner s f m ks =>
+    !t.isTerm && meetOps (effOp t cur) (effOp (.inner s f m ks) sin) &&
+      safeK0 S (childInhOf t cur) (childInhOf (.inner s f m ks) sin) (noKeys S t.kids) ks
+def safeK0 (S : Schema) (cur sin : Option Op) (T : List DNode) : List DNode → Bool
+  | [] => true
+  | c :: cs => T.all (fun t => !matchP S c t || safeP0 S cur sin t c) && safeK0 S cur sin T cs
+end
+
+/-- `mergeSafe` for COMPUTED diffs: the only thing excluded is a default-flagged second value in the cell `none` + `replace` -/
+def mergeSafe0 (S : Schema) (D1 D2 : List DNode) : Bool := safeK0 S none none D1 D2
+
 /-- the two diffs meet only in leaf cells and in `none` / `none` inner nodes -/
 def mergeSafe (S : Schema) (D1 D2 : List DNode) : Bool := safeK S none none D1 D2
 
